@@ -51,6 +51,7 @@ def check(ctx):
         node_ctor=_ctor_resolver(spec_entries, "c_parser"),
         clean_calls={"hasattr", "isinstance", "_parse_error"},
         skip_classes={"Coord"},   # the coordinate value class itself
+        skip_functions={"_tok_coord", "_coord"},   # the coordinate constructors: they are the sources, what they compute is position data by definition
     )
     for modname in ("c_parser", "ast_transforms"):
         mod = S.module(modname)
